@@ -133,6 +133,9 @@ func GenInst(t *rapid.T, o GenOpts, kind string, allowFire bool) Inst {
 		}
 	case "cache":
 		in.Key = rapid.SampledFrom([]string{"", "k1", "k1", "k2"}).Draw(t, "cfgKey")
+		if rapid.IntRange(0, 2).Draw(t, "keyReplaced") == 0 {
+			in.EarlierKey = rapid.SampledFrom([]string{"k1", "k2", "k3"}).Draw(t, "earlierKey")
+		}
 		in.Conds = GenConds(t, "c", o.RichErrors, 2)
 	case "bulkhead":
 		in.Max = rapid.IntRange(1, 3).Draw(t, "bhMax")
@@ -163,7 +166,7 @@ func GenInst(t *rapid.T, o GenOpts, kind string, allowFire bool) Inst {
 		case "fallback":
 			in.Conds = nil
 		case "cache":
-			in.Conds, in.Key = nil, ""
+			in.Conds, in.Key, in.EarlierKey = nil, "", ""
 		case "bulkhead":
 			in.MaxWaitMs = 0
 		case "hedge":
@@ -362,6 +365,9 @@ func GenScenario(t *rapid.T, o GenOpts) Scenario {
 			// the package-level functions: no context to carry a cache key or a cancellation handle
 			if !cancelMode && st.CtxKey == "" && st.Entry%4 >= 2 && !stackCancels() && rapid.IntRange(0, 5).Draw(t, "topLevel") == 0 {
 				st.TopLevel = true
+			}
+			if !st.TopLevel && rapid.IntRange(0, 4).Draw(t, "earlierCtx") == 0 {
+				st.EarlierCtx = rapid.SampledFrom([]string{"plain", "s:k1", "s:k2", "s:k3"}).Draw(t, "earlierCtxKind")
 			}
 			for k := 0; k < nOut; k++ {
 				oc := Outcome{V: rapid.IntRange(0, 3).Draw(t, "v"), E: genErrName(t, o.RichErrors, "e")}
